@@ -689,7 +689,8 @@ def build_history(rng, kind, sim, nobj, gpool, value_fn, free, nbatches, sizes, 
 
 
 def small_pool(rng):
-    return [[rng.randint(-2, 4) for _ in range(rng.choice([1, 1, 2, 3]))] for _ in range(rng.randint(1, 8))]
+    # an empty genome now and then: an individual with len() == 0 is falsy (empty knapsack, empty route)
+    return [[rng.randint(-2, 4) for _ in range(rng.choice([1, 1, 2, 3, 0]))] for _ in range(rng.randint(1, 8))]
 
 
 def gen_random_main(rng, kind, fam="rand"):
@@ -773,10 +774,12 @@ def gen_container(rng, kind, container):
     sim = rng.choice(["eq", "eq", "eq", "mod3"])
     if container == "set":
         pool = [rng.sample([0, 8, 16, 24, 1, 5, 3], rng.choice([1, 2, 2, 3])) for _ in range(rng.randint(2, 6))]
+        pool.append([])                              # the empty knapsack: a falsy individual
     else:
         keys = rng.choice([[0], [0, 1], [0, 1], [2, 1, 0]])
         pool = [[x for k in keys for x in (k, rng.randint(0, 2))] for _ in range(rng.randint(2, 6))]
         pool.append([x for k in rng.choice([[0], [1, 2]]) for x in (k, rng.randint(0, 2))])
+        pool.append([])
     m = rng.choice([1, 2, 2, 3, 3, 4, 6]) if kind == "hof" else 0
     free = kind == "pf" and rng.random() < 0.5
     table = {}
@@ -856,6 +859,13 @@ CORNERS = [
     {"k": "hof", "m": 3, "sim": "eq", "w": ["1"], "stream": "main", "fam": "corner", "cont": "dict", "default_sim": True,
      "ev": [["u", [[0, [0, 1, 1, 2], ["1"]]]], ["u", [[1, [0, 7, 1, 9], ["2"]]]]]},
     {"k": "hof", "m": 0, "sim": "eq", "w": ["1"], "stream": "api", "fam": "corner", "ev": [["u", []], ["u", [[0, [1], ["1"]]]]]},
+    # falsy individuals (len() == 0): an empty set / list shown twice is still one member
+    {"k": "hof", "m": 2, "sim": "eq", "w": ["-1"], "stream": "main", "fam": "corner", "cont": "set", "default_sim": True,
+     "ev": [["u", []], ["u", [[0, [], ["0"]], [1, [], ["0"]]]]]},
+    {"k": "hof", "m": 3, "sim": "eq", "w": ["1"], "stream": "main", "fam": "corner", "default_sim": True,
+     "ev": [["u", [[0, [], ["1"]]]], ["u", [[1, [], ["1"]], [2, [4], ["0"]]]], ["u", [[3, [], ["1"]]]]]},
+    {"k": "pf", "m": 0, "sim": "eq", "w": ["1", "-1"], "stream": "main", "fam": "corner", "cont": "dict", "default_sim": True,
+     "ev": [["u", [[0, [], ["1", "1"]]]], ["u", [[1, [], ["1", "1"]], [2, [0, 1], ["2", "2"]]]]]},
     {"k": "hof", "m": 1, "sim": "eq", "w": ["1"], "stream": "api", "fam": "corner", "ev": [["r", 0]]},
     {"k": "pf", "m": 0, "sim": "eq", "w": ["1", "1"], "stream": "main", "fam": "corner", "default_sim": True,
      "ev": [["u", [[0, [0], ["1", "1"]], [1, [1], ["0", "2"]], [2, [2], ["2", "0"]]]], ["u", [[3, [3], ["2", "2"]]]]]},
